@@ -133,7 +133,21 @@ func runNetConn(rep *Report, nc ncCase, tl *timerLog, short *int64) {
 			stream = append(stream, b...)
 			send(ws.Frame{Fin: true, Op: int(typ), Payload: b})
 		case "sendWrong":
-			send(ws.Frame{Fin: true, Op: int(other), Payload: mk(u)})
+			// what the unwanted message says is the peer's business: text, zeros, bytes that are no UTF-8, arbitrary binary
+			b := mk(u)
+			switch (sendSeq + si + u) % 4 {
+			case 1:
+				for i := range b {
+					b[i] = 0
+				}
+			case 2:
+				for i := range b {
+					b[i] = 0x80 | b[i]
+				}
+			case 3:
+				copy(b, []byte{0x1f, 0x8b, 0x08, 0x00, 0x00, 0x00, 0x00, 0x00, 0x00, 0xff, 0x01, 0x02, 0x03, 0x04, 0x05, 0x06, 0x07, 0x0b, 0x0e, 0x0f, 0x10, 0x11, 0x12, 0x13})
+			}
+			send(ws.Frame{Fin: true, Op: int(other), Payload: b})
 		case "peerClose1000", "peerClose1001", "peerClose4000":
 			code := map[string]int{"peerClose1000": 1000, "peerClose1001": 1001, "peerClose4000": 4000}[st.Op]
 			send(ws.Frame{Fin: true, Op: ws.OpClose, Payload: ws.ClosePayload(code, "x")})
